@@ -264,7 +264,7 @@ def gen(seed, n, cases_prefix, nshards):
               mg.default_cfg("jpsi_ksp1750_can", ins_parent=True), mg.default_cfg("jpsi_ksp_hel", ins_child=False)]
     cfgs = list(fixed[: max(1, n)]) if n < len(fixed) else list(fixed)
     while len(cfgs) < n:
-        c = mg.random_cfg(rng, rng.choice(names))
+        c = mg.random_cfg(rng, rng.choice(names), unaligned=True)
         c["align"] = "none"
         c["permutate"] = False
         cfgs.append(c)
